@@ -51,15 +51,18 @@ MODES = ['', '', 'segment', 'sec_within', 'segment,sec_within',
          'S_desc_TR', 'TR_desc_S', 'copy_all']
 
 # The harness' own idea of a principal-meridian designation: a Twp/Rge,
-# separators (line breaks included), an optional 'of the', at most 30 more
-# characters ON ONE LINE (the meridian's name), separators, 'P.M.' /
-# 'Meridian'. Markers are not inserted inside such a span (the library drops
-# the name of the meridian by design); anywhere else they must survive --
-# in particular on a line of their own between a Twp/Rge and a later P.M.
+# separators (line breaks included), an optional 'of the', the NAME of the
+# meridian -- at most four words on one line, each an ordinal ('5th') or
+# letters ('Fifth', 'Montana', 'New Mexico') -- separators, 'P.M.' /
+# 'Principal Meridian'. A marker made of letters is not inserted inside such
+# a span (it would read as part of the name, which the library drops by
+# design); everything else must survive: non-word markers anywhere, and any
+# marker in text that merely stands between a Twp/Rge and a later 'P.M.'.
 _PM_SPAN = re.compile(
     r"(\d\s*[NSns][a-z]{0,5}[\s.,\-–—;|_~]*(R[a-z]{0,6})?[\s.,\-–—]*\d{1,3}"
     r"[\s.,\-–—]*([EWew][a-z]{0,3})?)[\s:,;.\-–—]*(of)?\s*(the)?\s*"
-    r"[^\n]{0,30}?[\s:,;.\-–—]*(P\.?\s*M\.?|Meridian)", re.I)
+    r"((\d{1,2}(st|nd|rd|th)|[A-Za-z.]+)[ \t]*){0,4}[\s:,;.\-–—]*"
+    r"(P\.?\s*M\.?|Meridian)", re.I)
 _SEPCH = ',;:-–—\t\n .'
 _CULL = {'the', 'all', 'of', 'in', 'and'}
 
@@ -70,8 +73,34 @@ def plan(tier, seed):
     return [{'family': 'marker', 'n': 12000, 'i': i} for i in range(24)]
 
 
-def insertion_points(text):
+_TWPRGE_ISH = re.compile(
+    r"\d\s*[NSns][a-z]{0,5}[\s.,\-–—;|_~]*(R[a-z]{0,6})?[\s.,\-–—]*\d{1,3}"
+    r"[\s.,\-–—]*([EWew][a-z]{0,3})?", re.I)
+_PM_TOKEN = re.compile(
+    r"(?<![a-z])(P\.?\s{0,10}M\.?|P+r+i*n*c*i*p*a*l*\s{0,10}M+e*r*i*d*i*a*n*)"
+    r"(?![a-z])", re.I)
+
+
+def one_line_pm_window(before, marker):
+    """True iff, in the text `before` a substitution pass, the marker stands
+    between a Twp/Rge and the next 'P.M.' token and that stretch -- leading
+    and trailing separators and line breaks aside -- is a single line of at
+    most 40 characters (the library's window: 'of the' + 25 characters)."""
+    for pm in _PM_TOKEN.finditer(before):
+        for tr in _TWPRGE_ISH.finditer(before, 0, pm.start()):
+            between = before[tr.end():pm.start()]
+            if marker not in between:
+                continue
+            inner = between.strip(' \t\n:,;.-–—')
+            if '\n' not in inner and len(inner) <= 40:
+                return True
+    return False
+
+
+def insertion_points(text, marker=''):
     pts = [0, len(text)] + [m.start() for m in re.finditer(r'\s+', text)]
+    if not marker.isalpha():
+        return pts
     blocked = [(m.start(), m.end()) for m in _PM_SPAN.finditer(text)]
     return [p for p in pts if not any(a <= p <= b for a, b in blocked)]
 
@@ -232,8 +261,19 @@ def gen_case(rng):
         text = (f"{tw}\nSec {n}: {blk}\n{pm}" if rng.random() < 0.7 else
                 f"{tw}\n{blk} of Sec {n}\n{pm}")
         fam = 'pm-on-later-line'
-    pts = insertion_points(text)
+    elif r < 0.76:
+        # The P.M. follows the section and its (short) description on the
+        # same line: 'T154N-R97W Sec 14: NE/4, 5th P.M.'
+        tw = G.render_twprge((rng.randint(1, 160), rng.choice('ns'),
+                              rng.randint(3, 99), rng.choice('ew')),
+                             rng.choice(['compact', 'words', 'abbr']))
+        n = rng.randint(1, 36)
+        blk = rng.choice(['NE/4', 'Lot 1', 'W/2', 'ALL'])
+        text = (f"{tw}{rng.choice([' ', ', '])}{rng.choice(['Sec', 'Section'])}"
+                f" {n}: {blk}, {rng.choice(['5th P.M.', 'P.M.'])}")
+        fam = 'pm-after-section'
     marker = rng.choice(MARKERS)
+    pts = insertion_points(text, marker)
     pos = rng.choice(pts)
     if pos == 0:
         out = marker + ' ' + text
@@ -261,7 +301,8 @@ def check_case(case, ctx, rec, pytrs, rgxlib):
                     for f, c in d.e_flag_lines
                     if isinstance(f, str) and f.startswith('unused_desc'))
                 if not found:
-                    m = re.search(r'\S*' + marker[1:] + r'\S*', d.pp_desc)
+                    m = re.search(r'\S*' + re.escape(marker[1:]) + r'\S*',
+                                  d.pp_desc)
                     ctx.violation(
                         'marker-lost', case,
                         f"{marker} inserted in {short(text, 160)!r} (mode "
@@ -271,6 +312,30 @@ def check_case(case, ctx, rec, pytrs, rgxlib):
                         f"{short(d.pp_desc, 120)!r}",
                         dedup=f"{mode}|{case['family']}",
                         pp_desc=d.pp_desc,
+                        removed_by_pm_pass=any(
+                            ev['rgx'] == 'pp_twprge_pm'
+                            and marker in ev['before']
+                            and marker not in ev['after']
+                            and one_line_pm_window(ev['before'], marker)
+                            for ev in rec.of('scrub')),
+                        # both mechanisms in a row: a pass splits the
+                        # marker's first letter off (D22), the P.M. pass
+                        # then deletes the rest inside its window
+                        initial_eaten_then_pm=(
+                            marker[:1] in 'NSEW' and any(
+                                marker in ev['before']
+                                and marker not in ev['after']
+                                and re.search(r'\d{1,3}' + marker[0]
+                                              + r'[\s\-]+' + marker[1:],
+                                              ev['after'])
+                                for ev in rec.of('scrub'))
+                            and any(
+                                ev['rgx'] == 'pp_twprge_pm'
+                                and marker[1:] in ev['before']
+                                and marker[1:] not in ev['after']
+                                and one_line_pm_window(ev['before'],
+                                                       marker[1:])
+                                for ev in rec.of('scrub'))),
                         in_pp_desc=marker in d.pp_desc,
                         remnant=m.group(0) if m else None)
                 ctx.hit('scrub-conservation', len(rec.of('scrub')) or 1)
@@ -344,6 +409,17 @@ def classify(v):
     Twp/Rge: the preprocessed text holds '<E|W> QZXV'."""
     if v['kind'] != 'marker-lost':
         return None
+    if v.get('removed_by_pm_pass'):
+        # The recorded substitution pass of `pp_twprge_pm` had the marker in
+        # its input and not in its output, AND by the harness' own reading
+        # the marker stood on the single line of <= 40 characters between a
+        # Twp/Rge and 'P.M.': the arbitrary characters the pattern allows
+        # there were deleted. (Text on a line of its own between the two is
+        # not covered.)
+        return 'text-between-twprge-and-PM-deleted'
+    if v.get('initial_eaten_then_pm'):
+        return ['directionless-number-eats-next-word-initial',
+                'text-between-twprge-and-PM-deleted']
     case = v.get('case') or {}
     marker = case.get('marker', '')
     pp = v.get('pp_desc') or ''
